@@ -173,6 +173,26 @@ pub fn oracle(scn: &SenderScn, ctx: &Ctx, trace: &SenderTrace) {
                 violate(ctx, "C08/packet-after-removal-without-close-flag", "-", format!("toi={}: packet {} sent after remove_object lacks the close-object flag", toi, p.idx));
             }
         }
+        // ... and that single packet IS sent when the removal cuts a transfer that still had symbols to send
+        // (the length of a transfer is the one of an earlier complete transfer of the same object)
+        if after.is_empty() && trace.finished {
+            let mine: Vec<&Transfer> = tr.list.iter().filter(|t| t.obj == i).collect();
+            let cut = mine.iter().find(|t| t.start_seq < r && t.stop_seq.map(|s| s > r).unwrap_or(true));
+            let full = mine.iter().filter(|t| t.stop_seq.map(|s| s < r).unwrap_or(false)).map(|t| t.pkts.len()).max();
+            if let (Some(c), Some(n)) = (cut, full) {
+                if c.pkts.len() < n && !c.pkts.is_empty() {
+                    violate(
+                        ctx,
+                        "C08/no-close-packet-after-removal",
+                        "-",
+                        format!(
+                            "toi={}: removed during transfer {} after {} of its {} packets, yet no further packet (the one carrying the close-object flag) was sent: the object ends without a close-object packet",
+                            toi, c.n, c.pkts.len(), n
+                        ),
+                    );
+                }
+            }
+        }
     }
     for t in &tr.list {
         let o = &scn.objects[t.obj];
